@@ -21,6 +21,7 @@ pub async fn run(op: &str, a: &[String]) -> Option<Vec<String>> {
         "preamble.cut" => preamble_cut(a).await,
         "preamble.out" => preamble_out(a).await,
         "signal" => signal(a).await,
+        "finish.retry" => finish_retry(a).await,
         _ => return None,
     })
 }
@@ -852,6 +853,128 @@ async fn signal(a: &[String]) -> Vec<String> {
 const ROLES: [&str; 4] = ["cu", "cb", "su", "sb"];
 const RTS: [&str; 2] = ["mt", "ct"];
 
+
+// ---------------------------------------------------------------------------------------------
+// finish.retry  rt role
+//
+// `finish()` succeeds only once the peer has acknowledged everything. The receiving endpoint
+// lives on its own single-threaded runtime, which is stalled for 900 ms (a blocked thread: it can
+// neither read packets nor send acknowledgements). Meanwhile the sender writes 1000 bytes, calls
+// `finish()`, drops that future after 100 ms (a cancelled call: a timeout or a `select!`) and
+// calls `finish()` again: it must still be pending. Once the receiver runs again and has read
+// everything, `finish()` succeeds.
+// obs: `first=<pending|ok|err>` `second=<pending|…>` `received_all=<true|false>` `final=<ok|…>`.
+
+async fn finish_retry(a: &[String]) -> Vec<String> {
+    let role = arg(a, 1).to_string();
+    let fail = |e: String| {
+        vec![
+            "first=-".to_string(),
+            "second=-".into(),
+            "received_all=-".into(),
+            "final=-".into(),
+            format!("err={e}"),
+        ]
+    };
+    let rt = match TestRt::new(arg(a, 0)) {
+        Ok(rt) => rt,
+        Err(e) => return fail(e),
+    };
+    let frz = match TestRt::new("ct") {
+        Ok(rt) => rt,
+        Err(e) => return fail(e),
+    };
+    let client_opens = role.starts_with('c');
+    let pair = match if client_opens {
+        endpoints::real_pair_split(&frz, &rt).await
+    } else {
+        endpoints::real_pair_split(&rt, &frz).await
+    } {
+        Ok(p) => p,
+        Err(e) => return fail(e),
+    };
+    let (opener, accepter) = if client_opens {
+        (pair.client.clone(), pair.server.clone())
+    } else {
+        (pair.server.clone(), pair.client.clone())
+    };
+    let bidi = role.ends_with('b');
+    let form = |r: Option<Result<(), wtransport::error::StreamWriteError>>| match r {
+        None => "pending".to_string(),
+        Some(Ok(())) => "ok".to_string(),
+        Some(Err(e)) => canon::write_err(&e),
+    };
+
+    // open on the sender's runtime, accept on the receiver's
+    let op = opener.clone();
+    let opened = rt
+        .run(async move {
+            if bidi {
+                wt_open_bi(&op).await.map(|(s, r)| (s, Some(r)))
+            } else {
+                wt_open_uni(&op).await.map(|s| (s, None))
+            }
+        })
+        .await;
+    let (mut send, _keep_r) = match opened {
+        Ok(Ok(x)) => x,
+        Ok(Err(e)) | Err(e) => return fail(e),
+    };
+    let ac = accepter.clone();
+    let accepted = frz
+        .run(async move {
+            if bidi {
+                wt_accept_bi(&ac).await.map(|(s, r)| (r, Some(s)))
+            } else {
+                wt_accept_uni(&ac).await.map(|r| (r, None))
+            }
+        })
+        .await;
+    let (mut recv, _keep_s) = match accepted {
+        Ok(Ok(x)) => x,
+        Ok(Err(e)) | Err(e) => return fail(format!("accept:{e}")),
+    };
+
+    // stall the receiver's runtime
+    let _stall = frz.spawn(async {
+        std::thread::sleep(std::time::Duration::from_millis(900));
+    });
+    tokio::time::sleep(std::time::Duration::from_millis(50)).await;
+
+    let sender = rt
+        .run(async move {
+            let data = vec![0x5au8; 1000];
+            if let Err(e) = wt_write(&mut send, &data, 0).await {
+                return Err(format!("write:{e}"));
+            }
+            let first = form(bounded_ms(100, send.finish()).await);
+            let second = form(bounded_ms(300, send.finish()).await);
+            Ok((send, first, second))
+        })
+        .await;
+    let (mut send, first, second) = match sender {
+        Ok(Ok(x)) => x,
+        Ok(Err(e)) | Err(e) => return fail(e),
+    };
+    let reader = frz
+        .run(async move {
+            let (data, end) = wt_read_to_end(&mut recv, 4096).await;
+            data.len() == 1000 && end == "eos"
+        })
+        .await;
+    let all = matches!(reader, Ok(true));
+    let fin = match rt.run(async move { wt_finish(&mut send).await }).await {
+        Ok(v) => v,
+        Err(e) => e,
+    };
+    vec![
+        format!("first={first}"),
+        format!("second={second}"),
+        format!("received_all={all}"),
+        format!("final={fin}"),
+    ]
+}
+
 fn s<T: ToString>(x: T) -> String {
     x.to_string()
 }
@@ -1049,6 +1172,11 @@ fn gen_c06(thorough: bool, rng: &mut Rng, emit: &mut dyn FnMut(&str, Vec<String>
         1 << 30,
         (1 << 62) - 1,
     ];
+    for role in ROLES {
+        for rt in RTS {
+            emit("finish.retry", vec![s(rt), s(role)]);
+        }
+    }
     for action in ["reset", "stop", "finish"] {
         for phase in ["before", "mid", "after"] {
             for role in ROLES {
